@@ -1052,3 +1052,46 @@ func msGenScaleScenario(r *vRand) msScenario {
 	sc.Muts = []msOp{{K: "dt", Topic: sc.X}, {K: "ct", Topic: sc.X, N: 1, RF: 1}}
 	return sc
 }
+
+// ---------- partition-index edges ----------
+// Every partition-keyed operation (UpdateOffsets, NextOffset, Commit / Fetch / Lookup
+// consumer offsets, CreatePartitions' partition states) with indices the topic does not
+// have: negative, equal to the count, beyond it, not yet existing, very large - followed by
+// delete / re-create (smaller and larger) / growth and a read-back at the same indices.
+func msGenPartitionEdge(r *vRand) (int, []msOp) {
+	t := []string{"orders", "t1", "a.b"}[r.Intn(3)]
+	g := "g1"
+	n := int64(r.Range(1, 3))
+	idx := []int32{-1, int32(n), int32(n + 2), 7, 40, 2147483647, 0, int32(n - 1)}
+	var ops []msOp
+	reads := func() {
+		for _, p := range idx {
+			ops = append(ops, msOp{K: "no", Topic: t, Part: p}, msOp{K: "fo", Group: g, Topic: t, Part: p}, msOp{K: "lo", Group: g, Topic: t, Part: p})
+		}
+		ops = append(ops, msOp{K: "ls"}, msOp{K: "md", Names: []string{t}}, msOp{K: "fc", Topic: t})
+	}
+	if r.Chance(30) { // before the topic exists at all
+		ops = append(ops, msOp{K: "uo", Topic: t, Part: 3, N: 41}, msOp{K: "co", Group: g, Topic: t, Part: 5, N: 9, Meta: "early"})
+	}
+	ops = append(ops, msOp{K: "ct", Topic: t, N: n, RF: 1})
+	for _, p := range idx {
+		if r.Chance(70) {
+			ops = append(ops, msOp{K: "uo", Topic: t, Part: p, N: int64(40 + r.Intn(9))})
+		}
+		if r.Chance(50) {
+			ops = append(ops, msOp{K: "co", Group: g, Topic: t, Part: p, N: int64(1 + r.Intn(9)), Meta: "m"})
+		}
+	}
+	reads()
+	steps := [][]msOp{
+		{{K: "dt", Topic: t}}, {{K: "ct", Topic: t, N: n + 3, RF: 1}}, {{K: "cp", Topic: t, N: n + 5}}, {{K: "cp", Topic: t, N: 45}},
+		{{K: "dt", Topic: t}, {K: "ct", Topic: t, N: 1, RF: 1}}, {{K: "uo", Topic: t, Part: int32(n + 2), N: 70}}, {{K: "dt", Topic: t}, {K: "ct", Topic: t, N: 8, RF: 1}},
+	}
+	k := r.Range(3, len(steps))
+	start := r.Intn(2)
+	for i := 0; i < k; i++ {
+		ops = append(ops, steps[(start+i)%len(steps)]...)
+		reads()
+	}
+	return 1, ops
+}
